@@ -138,7 +138,7 @@ MUTANTS = [
             for key in open_messages[channel].keys():""", "normalise: unclosed notes removed on the first channel only"),
     # ---------------------------------------------------------------- C08
     ("c08a", "C08", R, "                    if msg.time <= remaining_capacity:", "                    if msg.time < remaining_capacity:",
-     "split: a wait that exactly fills the capacity is treated as straddling"),
+     "split: a wait that exactly fills the capacity is treated as straddling (only adds zero-length re-struck notes / a zero-length piece: sound, events and durations are conserved) — expected NOT detected"),
     ("c08b", "C08", R, """                                Message(message_type=MessageType.NOTE_ON, channel=value.channel, note=value.note,
                                         velocity=value.velocity))""", """                                Message(message_type=MessageType.NOTE_ON, channel=value.channel, note=value.note,
                                         velocity=64))""", "split: re-struck note gets a fixed velocity"),
@@ -161,7 +161,7 @@ MUTANTS = [
                     sequences[i] = Sequence()""", """                    if len(split_up) == 0:
                         split_up.append(Sequence())
                     sequences[i] = Sequence()
-                    if i > 0 and len(tracks_bars[i]) > len(tracks_bars[0]) - 1 and len(tracks_bars[i]) > 2:
+                    if i > 0 and len(split_up[0].rel._messages) == 0 and len(tracks_bars[i]) > 2:
                         continue""", "bar splitting: an exhausted side track stops receiving placeholder bars after its third bar"),
     # ---------------------------------------------------------------- C10
     ("c10a", "C10", B, "            self.sequence.pad(capacity)", "            self.sequence.pad(self.time_signature_numerator * PPQN)",
@@ -263,7 +263,7 @@ MUTANTS = [
     # ---------------------------------------------------------------- C19
     ("c19a", "C19", T, """            if main_part == TokenisationPrefixes.BAR.value:
                 cur_time += cur_bar_capacity_remaining""", """            if main_part == TokenisationPrefixes.BAR.value:
-                cur_time += cur_bar_capacity_total - cur_time_bar""", "get_info: bar token advances by total minus the in-bar clock (differs after a mid-bar signature)"),
+                cur_time += cur_bar_capacity_total""", "get_info: bar token advances by the whole bar instead of the remaining capacity"),
     ("c19b", "C19", T, """                cur_time += int(token_parts[0][1])
                 cur_time_bar += int(token_parts[0][1])
                 cur_bar_capacity_remaining -= int(token_parts[0][1])""", """                cur_time += int(token_parts[0][1])
